@@ -73,6 +73,7 @@ func verifDecodeAnswerRequest13(data []byte) (string, string, error) {
 	}
 	return verifapi.String("remote.answer", 2), "sid", nil
 }
+
 var verifPolls13 int
 
 func verifDecodePollResponse13(data []byte) (string, string, string, error) {
